@@ -189,6 +189,23 @@ impl<T: InternalVertexInfo + super::sealed::__Sealed> VertexInfo for T {
                 .map(RequiredProperty::new)
         }));
 
+        // Tagged properties of this vertex whose tags are used inside `@fold` scopes
+        // of this component (at any nesting depth) or in those folds' post-fold filters.
+        let properties = properties.chain(current_component.folds.values().flat_map(move |fold| {
+            let used_in_post_filters = fold.post_filters.iter().filter_map(|f| match f.right() {
+                Some(Argument::Tag(field_ref)) => Some(field_ref),
+                _ => None,
+            });
+            fold.imported_tags.iter().chain(used_in_post_filters).filter_map(move |field_ref| {
+                match field_ref {
+                    FieldRef::ContextField(ctx) if ctx.vertex_id == current_vertex.vid => {
+                        Some(RequiredProperty::new(ctx.field_name.clone()))
+                    }
+                    _ => None,
+                }
+            })
+        }));
+
         let mut seen_property = HashSet::new();
         Box::new(properties.filter(move |r| seen_property.insert(r.name.clone())))
     }
